@@ -270,6 +270,38 @@ Outcome(st) ==
         pulls |-> IF st.err.kind = "unexpected" /\ st.err.ch # EOF THEN st.n + 1 ELSE st.n]
 
 (***************************************************************************)
+(* Viable prefixes (C07).  Completion(st) is a character sequence that      *)
+(* closes the current token and every open container.  The invariant        *)
+(* checked by the tree models is: every state that is not an error state    *)
+(* is accepted after its completion, i.e. the text read so far can still be *)
+(* extended to a text matching the RFC 8259 grammar (in which any \uXXXX    *)
+(* escape is syntactically allowed: the completion is run under the lenient *)
+(* options).  Hence an `unexpected` error is never raised while the prefix  *)
+(* is still viable; since error states are absorbing, it is raised at the   *)
+(* first character after which no completion exists.                        *)
+(***************************************************************************)
+Lenient == MkOpts(TRUE, TRUE)
+Zeros4(n) == [i \in 1..(4 - n) |-> 48]
+TokCompletion(st) ==
+  CASE st.mode = "value" -> <<48>>
+    [] st.mode = "arr0"  -> <<93>>
+    [] st.mode = "obj0"  -> <<125>>
+    [] st.mode = "key"   -> <<34, 34, 58, 48>>
+    [] st.mode = "colon" -> <<58, 48>>
+    [] st.mode = "after" -> <<>>
+    [] st.mode = "lit"   -> st.rest
+    [] st.mode = "num"   -> IF st.sub \in {"minus", "frac0", "exp0", "exp1"} THEN <<48>> ELSE <<>>
+    [] st.mode = "str"   -> (CASE st.sub = "n" -> <<34>>
+                               [] st.sub = "esc" -> <<110, 34>>
+                               [] st.sub = "hex" -> Zeros4(st.hexn) \o <<34>>)
+                            \o (IF st.isKey THEN <<58, 48>> ELSE <<>>)
+    [] OTHER -> <<>>
+RECURSIVE Closers(_, _)
+Closers(stack, n) == IF n = 0 THEN <<>> ELSE <<IF stack[n].kind = "arr" THEN 93 ELSE 125>> \o Closers(stack, n - 1)
+Completion(st) == TokCompletion(st) \o Closers(st.stack, IF st.mode \in {"arr0", "obj0"} THEN Len(st.stack) - 1 ELSE Len(st.stack))
+IsViable(st) == Finish(RunFrom(st, Completion(st), 1, Lenient), Lenient).mode = "done"
+
+(***************************************************************************)
 (* Design-level invariants of a run (checked by the MC instances).          *)
 (***************************************************************************)
 \* C03: one character per step, the stack is exactly the open brackets
